@@ -1341,8 +1341,62 @@ def comp_maybe_div(prop, tier, comp, work):
 #  copy-ctor / operator= resize to the source size and copy element-wise (never the pointer); the destructor frees
 #  whenever buffer_ is non-null.  either/maybe: the destructor destroys the active alternative.
 # --------------------------------------------------------------------------------------------
+def _null_norm(c, pol):
+    """canonical form of pointer-nullness tests: every spelling of `p is non-null` becomes (p, 1), of `p is null` (p, 0)"""
+    c, pol = _strip_not(c, pol)
+    if _wraps_whole(c) and not re.search(r"[=!<>]=|[<>]", c[1:-1]):
+        c = c[1:-1]
+    m = re.fullmatch(r"\(?(?:bool\()?((?:this\.|\$|%)[\w.]+)\)?\)?", c)
+    if m and re.fullmatch(r"(?:bool\()?(?:this\.|\$|%)[\w.]+\)?", c.strip("()")) and "==" not in c and "!=" not in c:
+        return (m.group(1), pol)
+    m = re.fullmatch(r"\(((?:this\.|\$|%)[\w.]+)(==|!=)(?:nullptr|0|NULL)\)", c) or None
+    if m:
+        return (m.group(1), pol if m.group(2) == "!=" else 1 - pol)
+    m = re.fullmatch(r"\((?:nullptr|0|NULL)(==|!=)((?:this\.|\$|%)[\w.]+)\)", c)
+    if m:
+        return (m.group(2), pol if m.group(1) == "!=" else 1 - pol)
+    return None
+
+
+def _cmp_norm(c, pol):
+    """canonical form of an ordered comparison edge: ('<', a, b) means a < b holds on this edge (>, >=, <= and negations folded in)"""
+    c, pol = _strip_not(c, pol)
+    if not _wraps_whole(c):
+        return None
+    inner = c[1:-1]
+    depth = 0
+    for k, ch in enumerate(inner):
+        depth += ch == "("; depth -= ch == ")"
+        if depth == 0:
+            for op in ("<=", ">=", "<", ">"):
+                if inner.startswith(op, k) and not inner.startswith("<<", k) and not inner.startswith(">>", k) and (k == 0 or inner[k-1] not in "<>-"):
+                    a, b = inner[:k], inner[k + len(op):]
+                    if pol == 0:
+                        op = {"<": ">=", "<=": ">", ">": "<=", ">=": "<"}[op]
+                    if op in (">", ">="):
+                        a, b = b, a; op = {">": "<", ">=": "<="}[op]
+                    return (op, a, b)
+    return None
+
+
 def _gset(f):
-    return set((g["cond"].replace(" ", ""), g["pol"]) for g in expand_guards(f.get("g", [])))
+    """guards of a fact as a set of (condition, polarity); pointer-nullness tests are reduced to (pointer, 1|0) so that
+    `if (p)`, `if (p != nullptr)`, `if (!(p == nullptr))` are one guard"""
+    out = set()
+    for g in expand_guards(f.get("g", [])):
+        c = g["cond"].replace(" ", "")
+        nn = _null_norm(c, g["pol"])
+        if nn and nn[0].split(".")[-1].endswith("buffer_"):
+            out.add((nn[0], nn[1]))
+            if nn[1] == 0:
+                out.add(("(!%s)" % nn[0], 1))
+        else:
+            out.add((c, g["pol"]))
+    return out
+
+
+def _cmp_guards(f):
+    return set(x for x in (_cmp_norm(g["cond"].replace(" ", ""), g["pol"]) for g in expand_guards(f.get("g", []))) if x)
 
 def rule_own(rows, prop):
     findings, samples = [], []
@@ -1391,12 +1445,23 @@ def rule_own(rows, prop):
                         findings.append(finding("R-OWN.vector.dtor", prop, r, d["b"], "deallocation additionally depends on %s: a non-null buffer can be leaked" % sorted(extra), d.get("line")))
             if (is_ctor and [p["name"] for p in r["params"]] == ["other"]) or short == "operator=":
                 has_resize = any(f["k"] == "call" and f["b"] == "this.resize($other.size_)" for f in facts)
-                has_copy = any(f["k"] == "assign" and f["a"] == "this.buffer_[%i]" and f["b"] == "$other.buffer_[%i]" and ("(%i<this.size_)", 1) in _gset(f) for f in facts)
+                def _elem_copy(f):
+                    if f["k"] != "assign":
+                        return False
+                    ma = re.fullmatch(r"this\.buffer_\[%(\w+)\]", f["a"]); mb = re.fullmatch(r"\$other\.buffer_\[%(\w+)\]", f["b"])
+                    if not (ma and mb and ma.group(1) == mb.group(1)):
+                        return False
+                    v = "%" + ma.group(1)
+                    return any(op == "<" and a == v and b in ("this.size_", "$other.size_") for (op, a, b) in _cmp_guards(f))
+                has_copy = any(_elem_copy(f) for f in facts)
                 if not (has_resize and has_copy):
                     findings.append(finding("R-OWN.vector.copy", prop, r, short, "copy does not resize to the source size and copy element-wise under i < size_ (resize=%s, element copy=%s)" % (has_resize, has_copy)))
             if short == "push_back":
-                grow = any(f["k"] == "call" and f["b"] == "this.resize((this.size_ + 1))" and ("(this.buffer_size_<(this.size_+1))", 1) in _gset(f) for f in facts)
-                inc = any(f["k"] == "assign" and f["a"] == "this.size_" and f["b"] == "(this.size_ + 1)" and ("(this.buffer_size_<(this.size_+1))", 0) in _gset(f) for f in facts)
+                FULL = {("<", "this.buffer_size_", "(this.size_+1)"), ("<=", "this.buffer_size_", "this.size_")}
+                ROOM = {("<=", "(this.size_+1)", "this.buffer_size_"), ("<", "this.size_", "this.buffer_size_")}
+                grow = any(f["k"] == "call" and f["b"].replace(" ", "") in ("this.resize((this.size_+1))", "this.resize((1+this.size_))") and (_cmp_guards(f) & FULL) for f in facts)
+                inc = any(f["k"] == "assign" and f["a"] == "this.size_" and f["b"].replace(" ", "") in ("(this.size_+1)", "(1+this.size_)") and (_cmp_guards(f) & ROOM) for f in facts) \
+                      or any(f["k"] in ("assign", "incr") and f["a"] == "this.size_" and (_cmp_guards(f) & ROOM) for f in facts if f["k"] == "incr")
                 st = any(f["k"] == "assign" and f["a"] == "this.buffer_[(this.size_ - 1)]" and f["b"] == "$t" for f in facts)
                 if not (grow and inc and st):
                     findings.append(finding("R-OWN.vector.push_back", prop, r, "push_back", "push_back is not {grow when full | size_+1 otherwise; buffer_[size_-1] = t} (grow=%s, inc=%s, store=%s)" % (grow, inc, st)))
